@@ -143,6 +143,56 @@ def norm_geometry(words):
     return [w[1:] if w.startswith("+") and len(w) > 1 else w for w in words]
 
 
+def geometry_equal(words_a, words_b):
+    """Boolean equality of two cell geometries per Spec/GeomEval.lean (truth tables over all atoms).
+    None-able result is treated as 'not shown equal'."""
+    r = batch([{"limit": 128, "op": "geomeq", "lines": [" ".join(words_a), " ".join(words_b)]}])[0]
+    return r is True
+
+
+def strip_trailing_jumps(vals):
+    vals = list(vals)
+    while vals and vals[-1] == "J":
+        vals.pop()
+    return vals
+
+
+def is_per_cell_card(name):
+    base, _ = split_key(name)
+    return base.lstrip("*") in CELL_DATA
+
+
+def well_formed(den):
+    """The part of G's well-formedness (DESIGN 5.2) that the whole-file properties need: every card has a number /
+    name, every cell has an importance for every particle of MODE in exactly one block. -> (ok, reason)"""
+    mode = ["n"]
+    for d in den["data"]:
+        if d["name"] == "mode":
+            mode = [v["w"] for v in d["entries"] if isinstance(v, dict) and "w" in v]
+    if any(c["number"] is None or c["like"] for c in den["cells"]):
+        return False, "cell without number / LIKE BUT"
+    if not den["cells"] or not den["surfaces"]:
+        return False, "empty block"
+    for s in den["surfaces"]:
+        if s["number"] is None or not s["mnemonic"] or not s["mnemonic"][0].isalpha():
+            return False, "surface card without number/mnemonic"
+        if any(not (v == "J" or (isinstance(v, dict) and ("n" in v or "log" in v))) for v in s["constants"]):
+            return False, "surface constants contain a word (two cards fused by the input itself?)"
+        if s["mnemonic"] in ("cx", "cy", "cz", "so") and s["constants"] and isinstance(s["constants"][0], dict) and "n" in s["constants"][0] and s["constants"][0]["n"][0] <= 0:
+            return False, "non-positive radius"
+    for c in den["cells"]:
+        if not c["geometry"]:
+            return False, "cell without geometry"
+        if any(w[-1:].isalpha() for w in c["geometry"]):
+            return False, "shortcut or word inside cell geometry (excluded from G)"
+    t = per_cell_table(den)
+    for i in range(len(den["cells"])):
+        for p in mode:
+            if len(t.get((i, "imp", p), [])) != 1:
+                return False, f"cell {den['cells'][i]['number']} has {len(t.get((i, 'imp', p), []))} importances for {p}"
+    return True, ""
+
+
 # --------------------------------------------------------------------------- whole-problem comparison
 def diff_problems(a, b, rel=Fraction(1, 10**9), geometry_equal=None, compare_comments=True):
     """Differences between two denotations as a list of (class, where, detail). Empty list = Problem.same.
@@ -197,7 +247,11 @@ def diff_problems(a, b, rel=Fraction(1, 10**9), geometry_equal=None, compare_com
         w = f"data[{i}]:{x['name']}"
         if split_key(x["name"]) != split_key(y["name"]):
             d.append(("data-name", w, (x["name"], y["name"])))
-        if not vals_equal(x["entries"], y["entries"], rel):
+        ex, ey = x["entries"], y["entries"]
+        if is_per_cell_card(x["name"]):
+            # trailing defaults of a per-cell vector may be omitted or written: the same per-cell values
+            ex, ey = strip_trailing_jumps(ex), strip_trailing_jumps(ey)
+        if not vals_equal(ex, ey, rel):
             d.append(("data-entries", w, (x["entries"], y["entries"])))
         if compare_comments:
             _cmp_comments(d, w, x, y)
